@@ -101,6 +101,7 @@ class QuietTail:
         """Faults stop here: pending injected errnos, send failures, partitions and stalls are cancelled."""
         for n in self.world.nodes.values():
             n.kernel.inject.clear()
+            getattr(n.kernel, 'nl_fault', {}).clear()
             n.sendto_fail.clear()
             n.recv_fail['udp'].clear()
             n.recv_fail['nl'].clear()
